@@ -41,6 +41,19 @@ ASSUMPTIONS = [
 TRUSTED = ["vp/symmetry.py", "vp/model.py relabel"]
 
 
+def gen_huge(data: bytes):
+    """graphs beyond 128 atoms (index arithmetic, narrow array dtypes);
+    the short drawn tape seeds a long derived one"""
+    tp = S.seed_tape(int.from_bytes(data[:12], "big"), n=20000)
+    cls = tp.pick(["SMG", "SCRG", "MG", "CRG", "SMG"])
+    m = S.gen_model(tp, cls, nmax=190, nmin=130, none_parity=0, wide=False,
+                    family=tp.pick(["tree", "sparse", "tree"]), kmax=3)
+    a = S.shuffled_recipe(tp, m)
+    mp = S.renaming(tp, m.atoms)
+    return {"via": "build", "a": a, "mapping": [[k, v] for k, v in mp.items()],
+            "tseed": tp.below(1 << 30)}
+
+
 def gen(data: bytes):
     tp = S.Tape(data)
     cls = tp.pick(["MG", "SMG", "CRG", "SCRG", "SMG", "SCRG"])
@@ -233,6 +246,8 @@ def run(ctx):
         check_case(ctx, case)
 
     ctx.hyp("c01", S.mapped(900, gen), check, n, shrinker=shrink)
+    ctx.hyp("c01-huge", S.mapped(12, gen_huge), check,
+            ctx.scale(60, 4000), shrinker=shrink)
 
     # second source: independent pairs (tiny universe / mutants / ring
     # families, unspecified parity excluded) that the brute-force oracle
